@@ -25,6 +25,10 @@ CODES = [
     "4-fish-purple",
     "4-purple-sausages2",
     "4-purple-sausages²",           # SUPERSCRIPT TWO: again only compatibility-equal
+    "4-\u212bngstrom-\u2126",             # ANGSTROM SIGN, OHM SIGN: canonical singletons (no combining mark anywhere)
+    "4-\u00c5ngstrom-\u03a9",             # their NFC forms: the same code
+    "4-\u1112\u1161\u11ab-word",          # Hangul conjoining jamo
+    "4-\ud55c-word",                     # the precomposed syllable: the same code
     "5-purple-sausages",                 # other nameplate
     "04-purple-sausages",                # nameplate spelled differently
 ]
